@@ -141,6 +141,13 @@ func (e *ordEval) evalInt(x ast.Expr) int64 {
 			return -e.evalInt(v.X)
 		}
 	case *ast.BinaryExpr:
+		// rank[l] - rank[r] with rank a package-level table keyed by the two boolean operands of one
+		// key: under an ordering of (l, r) both values are known (false < true), equal operands give 0
+		if v.Op == token.SUB {
+			if n, ok := e.rankDiff(v.X, v.Y); ok {
+				return n
+			}
+		}
 		a, b := e.evalInt(v.X), e.evalInt(v.Y)
 		switch v.Op {
 		case token.SUB:
@@ -649,4 +656,86 @@ func sign64(n int64) int {
 		return 1
 	}
 	return 0
+}
+
+
+// rankDiff: a and b are tbl[l] and tbl[r] over the same package-level table with constant boolean
+// keys, l and r the two sides of one key of boolean type.
+func (e *ordEval) rankDiff(a, b ast.Expr) (int64, bool) {
+	ia, ok1 := ast.Unparen(a).(*ast.IndexExpr)
+	ib, ok2 := ast.Unparen(b).(*ast.IndexExpr)
+	if !ok1 || !ok2 {
+		return 0, false
+	}
+	ta, ok1 := ast.Unparen(ia.X).(*ast.Ident)
+	tb, ok2 := ast.Unparen(ib.X).(*ast.Ident)
+	if !ok1 || !ok2 || e.info.ObjectOf(ta) != e.info.ObjectOf(tb) {
+		return 0, false
+	}
+	tv, _ := e.info.ObjectOf(ta).(*types.Var)
+	if tv == nil || tv.Pkg() == nil || tv.Parent() != tv.Pkg().Scope() {
+		return 0, false
+	}
+	o, ok := e.cmpOperands(ia.Index, ib.Index)
+	if !ok {
+		return 0, false
+	}
+	if t := e.info.TypeOf(ia.Index); t == nil {
+		return 0, false
+	} else if bt, isB := t.Underlying().(*types.Basic); !isB || bt.Info()&types.IsBoolean == 0 {
+		return 0, false
+	}
+	if o == 0 {
+		return 0, true
+	}
+	// the table's entries for false and true
+	var lit *ast.CompositeLit
+	if curProg != nil {
+		for _, fi := range curProg.Funcs {
+			if fi.Pkg.Types != tv.Pkg() {
+				continue
+			}
+			for _, f := range fi.Pkg.Syntax {
+				for _, d := range f.Decls {
+					gd, ok := d.(*ast.GenDecl)
+					if !ok || gd.Tok != token.VAR {
+						continue
+					}
+					for _, sp := range gd.Specs {
+						vs := sp.(*ast.ValueSpec)
+						for i, nm := range vs.Names {
+							if fi.Pkg.TypesInfo.Defs[nm] == types.Object(tv) && i < len(vs.Values) {
+								lit, _ = ast.Unparen(vs.Values[i]).(*ast.CompositeLit)
+							}
+						}
+					}
+				}
+			}
+			break
+		}
+	}
+	if lit == nil {
+		return 0, false
+	}
+	vals := map[bool]int64{}
+	for _, el := range lit.Elts {
+		kv, ok := el.(*ast.KeyValueExpr)
+		if !ok {
+			return 0, false
+		}
+		ktv, ok1 := e.info.Types[kv.Key]
+		vtv, ok2 := e.info.Types[kv.Value]
+		if !ok1 || !ok2 || ktv.Value == nil || vtv.Value == nil || ktv.Value.Kind() != constant.Bool {
+			return 0, false
+		}
+		n, _ := constant.Int64Val(constant.ToInt(vtv.Value))
+		vals[constant.BoolVal(ktv.Value)] = n
+	}
+	if len(vals) != 2 {
+		return 0, false
+	}
+	if o < 0 {
+		return vals[false] - vals[true], true
+	}
+	return vals[true] - vals[false], true
 }
